@@ -209,6 +209,12 @@ Proof.
   - dstmt.
   - dstmt.
   - dstmt.
+  - dstmt.
+  - dstmt.
+  - dstmt.
+  - dstmt.
+  - destruct e; dstmt.
+  - dstmt.
 Qed.
 
 Lemma step_dinv : dinv (step fns f).
